@@ -21,7 +21,7 @@
 (*   abort hm m | ret e | call f cls a [q] [cl]                            *)
 (* Assignment target tg: [tk "var", x, p] | [tk "ext", pre, p] | [tk "noop"]*)
 (***************************************************************************)
-EXTENDS Values
+EXTENDS Kinds
 
 (* ---------- outcomes (ExpressionError in expression_error.rs) ---------- *)
 OkO(v)        == [o |-> "ok", v |-> v]
@@ -225,16 +225,17 @@ StoreTarget(vars, tg, v) ==
 DelCompact(f) == IF Len(f.n.a) > 0 /\ Len(f.acc) > 0 /\ IsOk(f.acc[1]) /\ IsBool(f.acc[1].v)
                  THEN f.acc[1].v.v ELSE FALSE
 
-\* default value of `ok` for a failed infallible assignment is fixed at compile time
-\* (Assignment::new: the rhs type's default); it is taken from the node (n.dflt) when the
-\* node carries it and otherwise left unconstrained.
+\* The value stored in `ok` by a failed infallible assignment is the default value of the
+\* right-hand side's type (Assignment::new), known when the node carries the compiler's type.
+HasDefault(n) == "st" \in DOMAIN n.e
+DefaultFor(n) == DefaultOfKind(n.e.st.kd)
 ExitVars(f, out, vars) ==
   LET n == f.n IN
   CASE n.k = "asg" /\ IsOk(out) -> StoreTarget(vars, n.tg, out.v)
     [] n.k = "asg2" /\ IsOk(out) /\ Len(f.acc) = 1 /\ IsOk(f.acc[1]) ->
          StoreTarget(StoreTarget(vars, n.ok, f.acc[1].v), n.er, Null)
-    [] n.k = "asg2" /\ IsOk(out) /\ Len(f.acc) = 1 /\ f.acc[1].o = "err" /\ "dflt" \in DOMAIN n ->
-         StoreTarget(StoreTarget(vars, n.ok, n.dflt), n.er, Str(f.acc[1].m))
+    [] n.k = "asg2" /\ IsOk(out) /\ Len(f.acc) = 1 /\ f.acc[1].o = "err" /\ HasDefault(n) ->
+         StoreTarget(StoreTarget(vars, n.ok, DefaultFor(n)), n.er, Str(f.acc[1].m))
     [] n.k = "call" /\ n.cls = "del" /\ n.q.tk = "var" /\ n.q.x \in DOMAIN vars ->
          SetVar(vars, n.q.x, Remove(vars[n.q.x], n.q.p, DelCompact(f)).val)
     [] OTHER -> vars
